@@ -90,6 +90,11 @@ func (m *Machine) oblige(st *State, fr *Frame, kind, detail string, goal *Term, 
 	if st.pure {
 		return
 	}
+	if m.reject != nil {
+		// reject pass: only the paths on which no run-time panic happened continue
+		st.assume(goal)
+		return
+	}
 	if goal.IsTrue() {
 		m.recordObl(st, fr, kind, detail, goal, tags, desc, true)
 		return
@@ -99,6 +104,9 @@ func (m *Machine) oblige(st *State, fr *Frame, kind, detail string, goal *Term, 
 }
 
 func (m *Machine) recordObl(st *State, fr *Frame, kind, detail string, goal *Term, tags []string, desc string, trivial bool) {
+	if m.reject != nil && kind != "reject" {
+		return
+	}
 	fname := relName(m.fn)
 	name := kind
 	if detail != "" {
@@ -489,7 +497,7 @@ func (m *Machine) exec(st *State, fr *Frame, ins ssa.Instruction) {
 		}
 		m.doReturn(st, fr, rets)
 	case *ssa.Panic:
-		if st.pure {
+		if st.pure || m.reject != nil {
 			st.dead = true
 			return
 		}
